@@ -41,6 +41,32 @@ func (sc *SpecCtx) fail(f string, a ...interface{}) {
 
 // lookupTypeName finds a named struct type by (possibly qualified) name in the spec's package scope.
 func (sc *SpecCtx) lookupTypeName(name string) *types.Named {
+	if n := sc.lookupLocalTypeName(name); n != nil {
+		return n
+	}
+	// a dependency struct declared `transparent pkg.Name` may be named by its bare name
+	var hit *types.Named
+	for q := range sc.c.e.d.transparent {
+		i := strings.LastIndex(q, ".")
+		if i < 0 || q[i+1:] != name {
+			continue
+		}
+		for _, p := range sc.c.e.pkgs {
+			if p.Types != nil && p.Types.Name() == q[:i] {
+				if obj := p.Types.Scope().Lookup(name); obj != nil {
+					if tn, ok := obj.(*types.TypeName); ok {
+						if n, ok := tn.Type().(*types.Named); ok {
+							hit = n
+						}
+					}
+				}
+			}
+		}
+	}
+	return hit
+}
+
+func (sc *SpecCtx) lookupLocalTypeName(name string) *types.Named {
 	if sc.pkg == nil || sc.pkg.Types == nil {
 		return nil
 	}
